@@ -36,6 +36,33 @@ def stable_hash(obj):
     return int.from_bytes(hashlib.blake2b(s.encode("utf-8", "surrogatepass"), digest_size=8).digest(), "big")
 
 
+class CaseTimeout(Exception):
+    """A single case exceeded its generous per-case budget (logical verdict: did not terminate)."""
+
+
+class case_deadline:
+    """with case_deadline(20): ...   raises CaseTimeout inside the block after N wall seconds.
+    Only for cases whose normal cost is milliseconds: 4 orders of magnitude of slack."""
+
+    def __init__(self, seconds):
+        self.seconds = seconds
+
+    def _fire(self, *a):
+        raise CaseTimeout()
+
+    def __enter__(self):
+        import signal
+        self._old = signal.signal(signal.SIGALRM, self._fire)
+        signal.setitimer(signal.ITIMER_REAL, self.seconds)
+        return self
+
+    def __exit__(self, *a):
+        import signal
+        signal.setitimer(signal.ITIMER_REAL, 0)
+        signal.signal(signal.SIGALRM, self._old)
+        return False
+
+
 class Ctx:
     """Per-shard context handed to run_shard()."""
 
@@ -202,7 +229,7 @@ def coordinator(prop, tier, seed, nshards=None):
     t0 = time.time()
     if nshards is None:
         nshards = getattr(mod, "SHARDS", {}).get(tier, min(16, os.cpu_count() or 4))
-    watchdog = getattr(mod, "WATCHDOG_S", {}).get(tier, 1500 if tier == "quick" else 7200)
+    watchdog = getattr(mod, "WATCHDOG_S", {}).get(tier, 900 if tier == "quick" else 7200)
     workdir = "/dev/shm/vf-%s-%s-%d-%d" % (prop, tier, seed, os.getpid())
     if not os.path.isdir("/dev/shm"):
         workdir = os.path.join(VERIF_ROOT, ".work", os.path.basename(workdir))
